@@ -6,6 +6,7 @@ package main
 import (
 	"fmt"
 	"go/token"
+	"go/types"
 	"sort"
 
 	"golang.org/x/tools/go/ssa"
@@ -288,4 +289,130 @@ func checkC04(c *Ctx) {
 	if nO == 0 {
 		c.Bad(O1, "rbc", "ack-path voucher insertion", "-", "no voucher insertion on the acknowledgement path")
 	}
+	ruleC04Drops(c, r)
+}
+
+// ruleC04Drops (C04.O2): the only ways an incoming broadcast payload or acknowledgement leaves the
+// receiver without being registered are the enumerated ones: the halt flag, an acknowledgement about
+// an own message, a self-vouch, a conflicting digest (which sets the halt flag) — or a test of the
+// message alone.  Any other arm that returns without the voucher insertion makes the outcome depend on
+// what else is in flight (other rounds, other senders, arrival order), which is what C04 excludes.
+func ruleC04Drops(c *Ctx, r *rbcModel) {
+	const O2 = "C04.O2"
+	c.Rule(O2, "no unregistered exit from Receive/registerMsg other than the enumerated drop reasons", 2)
+	m := r.m
+	sl := NewSlicer(m, PkgRBC)
+	// mutable receiver state: fields of Receiver stored to by package code (directly or as a map)
+	mutable := map[*types.Var]bool{}
+	if st, ok := r.receiver.Underlying().(*types.Struct); ok {
+		for i := 0; i < st.NumFields(); i++ {
+			f := st.Field(i)
+			if len(storesToField(r.fns, f)) > 0 || len(mapUpdatesOfField(r.fns, f)) > 0 {
+				mutable[f] = true
+			}
+		}
+	}
+	readsMutable := func(v ssa.Value) *types.Var {
+		var hit *types.Var
+		for x := range sl.Slice(v) {
+			if _, f, ok := fieldLoad(x); ok && mutable[f] {
+				hit = f
+			}
+		}
+		return hit
+	}
+	delivered := r.deliveredFlag()
+	for _, fn := range r.fns {
+		if fn.Blocks == nil || len(fn.Blocks[0].Instrs) == 0 {
+			continue
+		}
+		// functions on the registration path: Receive and whatever it calls that reaches a sink
+		if fn != r.receive && !(r.reachesSink(fn, map[*ssa.Function]bool{}) && len(staticCallsTo(r.fns, fn)) > 0) {
+			continue
+		}
+		registered := func(in ssa.Instruction) bool {
+			if mu, ok := in.(*ssa.MapUpdate); ok {
+				for _, x := range r.inserts {
+					if x == mu {
+						return true
+					}
+				}
+			}
+			if st, ok := in.(*ssa.Store); ok {
+				if fa, ok := st.Addr.(*ssa.FieldAddr); ok && fieldOfAddr(fa) == r.fEquiv {
+					if k, ok := st.Val.(*ssa.Const); ok && k.Value != nil && k.Value.String() == "true" {
+						// halting on a conflicting digest: the guard is checked by C02.G2
+						return true
+					}
+				}
+			}
+			if ci, ok := in.(ssa.CallInstruction); ok {
+				if callsFuncField(ci.Common(), r.fFwd) {
+					return true
+				}
+				if cal := staticCallee(ci.Common()); cal != nil && pkgPathOf(cal) == PkgRBC && r.reachesSink(cal, map[*ssa.Function]bool{}) {
+					return true
+				}
+			}
+			return false
+		}
+		skip := func(b *ssa.BasicBlock, succ int) bool {
+			iff, ok := b.Instrs[len(b.Instrs)-1].(*ssa.If)
+			if !ok {
+				return false
+			}
+			f := factOf(Guard{iff, succ == 0})
+			switch {
+			case f.Op == 0 && f.True && isLoadOfField(f.Bool, r.fEquiv):
+				return true // halted
+			case f.Op == token.EQL && ((r.isAckSender(f.X) && r.isSelfID(f.Y)) || (r.isAckSender(f.Y) && r.isSelfID(f.X))):
+				return true // acknowledgement about an own message
+			case f.Op == token.EQL && ((r.isAckSender(f.X) && strip(f.Y) == ssa.Value(r.paramFrom)) || (r.isAckSender(f.Y) && strip(f.X) == ssa.Value(r.paramFrom))):
+				return true // self-vouch
+			case f.Op == 0 && f.True && delivered != nil:
+				// the very entry this message belongs to was handed over already: nothing left to collect
+				if _, fld, isF := entryBaseOf(f.Bool); isF && fld == delivered {
+					k := r.receptionKeyOf(f.Bool)
+					for _, mu := range r.inserts {
+						if mu.Parent() == fn && k != nil && sameValue(k, r.receptionKeyOf(mu.Map)) {
+							return true
+						}
+					}
+				}
+			}
+			return false
+		}
+		bad := ""
+		for _, e := range undoneExits(fn, registered, skip) {
+			if e.B == nil {
+				bad = "the return at " + m.Pos(e.Ret.Instrs[len(e.Ret.Instrs)-1].Pos()) + " is reached without any registration"
+				break
+			}
+			iff := e.B.Instrs[len(e.B.Instrs)-1].(*ssa.If)
+			// a test of the message alone (no mutable receiver state involved) may decide an exit
+			if f := readsMutable(iff.Cond); f != nil {
+				bad = "the return at " + m.Pos(e.Ret.Instrs[len(e.Ret.Instrs)-1].Pos()) + " skips registration and is decided by the test at " + m.Pos(blockPos(e.B)) + ", which reads receiver state " + f.Name()
+				break
+			}
+		}
+		c.Check(bad == "", O2, FuncName(fn), "exits without registration", m.Pos(fn.Pos()),
+			"every return that skips the voucher insertion / hand-over is behind: halt flag, ack about own message, self-vouch, conflicting digest (sets the halt flag), this entry already handed over, or a test of the message alone",
+			"a payload or acknowledgement can be dropped silently: "+bad+"; whether it is dropped depends on what else was received before, so some interleavings lose a broadcast (no quorum) in a fault-free run")
+	}
+}
+
+// deliveredFlag: the boolean field of a reception entry whose falsity guards the broadcast hand-over
+// (the at-most-once flag that C03.G1 checks).
+func (r *rbcModel) deliveredFlag() *types.Var {
+	for _, h := range r.bcastHandovers {
+		for _, f := range FactsAt(h.(ssa.Instruction)) {
+			if f.Op != 0 || f.True {
+				continue
+			}
+			if _, fld, isF := entryBaseOf(f.Bool); isF && r.receptionKeyOf(f.Bool) != nil {
+				return fld
+			}
+		}
+	}
+	return nil
 }
